@@ -392,6 +392,7 @@ pub async fn lookup_audit(
 ) -> Result<AuditEntry> {
     #[cfg(azure_guestproxyagent_verif)]
     if let Some(r) = crate::verif::audit::lookup(source_port) {
+        crate::verif::sched::point("redirector.lookup_audit.done").await;
         return r;
     }
     if let Ok(Some(bpf_object)) = redirector_shared_state.get_bpf_object().await {
@@ -406,8 +407,11 @@ pub async fn remove_audit(
     redirector_shared_state: &RedirectorSharedState,
 ) -> Result<()> {
     #[cfg(azure_guestproxyagent_verif)]
-    if let Some(r) = crate::verif::audit::remove(source_port) {
-        return r;
+    {
+        crate::verif::sched::point("redirector.remove_audit.begin").await;
+        if let Some(r) = crate::verif::audit::remove(source_port) {
+            return r;
+        }
     }
     if let Ok(Some(bpf_object)) = redirector_shared_state.get_bpf_object().await {
         bpf_object
